@@ -117,6 +117,10 @@ def run(ctx):
         for p in conformance_problems(rr, sem):
             n_viol += 1
             shape = "null-constant-operand:" if ("non-nullable" in p and re.search(r"\bnull\b", c["script"])) else ""
+            if exprk.CLAUSE_ON_RESULT.search(c["script"]) and "measure-renaming-operator" in c.get("flags", []) and "data columns" in p:
+                # the recorded C01 defect (a clause applied directly to the result of a measure-renaming operator loses the column)
+                ctx.violation("nested:clause-applied-to-operator-result:wrong-result", f"{c['script'].strip()} :: {p}", {"case": exprk.case_json(c), "problem": p})
+                continue
             ctx.violation("generated:" + shape + re.sub(r"[^A-Za-z_. ]", "", p)[:60], f"{c['script'].strip()} :: {p}", {"case": exprk.case_json(c), "problem": p})
         if sem["ok"] and m[0] == "Ok":
             env = {x[0][1]: ([y[1] for y in x[1][0]], [y[1] for y in x[1][1]]) for x in m[1]}
